@@ -402,7 +402,7 @@ func TestMapFreeSchedule(t *testing.T) {
 			}(g)
 		}
 		close(start)
-		wg.Wait()
+		waitAll(t, &wg, rec)
 		ops := rec.ops
 		res := porcupine.CheckOperations(mapModel, ops)
 		if !res {
@@ -543,7 +543,7 @@ func TestSetsFreeSchedule(t *testing.T) {
 			}(g)
 		}
 		close(start)
-		wg.Wait()
+		waitAll(t, &wg, rec)
 		if !porcupine.CheckOperations(setModel, rec.ops) {
 			t.Fatalf("C20: concurrent history of %s is not linearizable: %v", which, rec.ops)
 		}
@@ -576,6 +576,45 @@ func TestRealLoggerCloseErrors(t *testing.T) {
 		out.App.Close()
 		kit.Rec.Case(fmt.Sprintf("real-logger %d failing closers procs=%d", n, procs), true, "real-logger-close-errors")
 	})
+}
+
+// TestCloseJoinsItsGoroutines runs with a recording logger (VERIF_REC_LOGGER=1; its appends are mutex-guarded, the
+// test's read after App.Close is deliberately NOT): App.Close is the join point of the parallel closing phase, so
+// everything the closer goroutines do - including reporting their failures - happens-before its return. The race
+// detector reports any goroutine of that phase that is still running afterwards.
+func TestCloseJoinsItsGoroutines(t *testing.T) {
+	kit.Rec.Rule(rule)
+	if kit.Rec0 == nil {
+		t.Skip("needs VERIF_REC_LOGGER=1")
+	}
+	total := 0
+	rapid.Check(t, func(t *rapid.T) {
+		n := rapid.IntRange(1, 8).Draw(t, "n")
+		var comps []any
+		failing := 0
+		for i := 0; i < n; i++ {
+			f := rapid.IntRange(0, 3).Draw(t, "fail") > 0
+			if f {
+				failing++
+			}
+			comps = append(comps, &Closer{name: fmt.Sprintf("closer-%d", i), fail: f})
+		}
+		procs := rapid.SampledFrom([]int{2, 4, 16}).Draw(t, "gomaxprocs")
+		old := runtime.GOMAXPROCS(procs)
+		defer runtime.GOMAXPROCS(old)
+		out := kit.RunApp(app.SetComponents(comps...))
+		if !out.OK() {
+			t.Fatalf("C20: start failed: %v", out)
+		}
+		out.App.Close()
+		total += kit.Rec0.UnsyncLen() // unsynchronised on purpose
+		for i := 0; i < 50; i++ {
+			runtime.Gosched()
+		}
+		total += kit.Rec0.UnsyncLen()
+		kit.Rec.Case(fmt.Sprintf("close-join %d closers %d failing procs=%d", n, failing, procs), failing > 0, "close-is-join-point")
+	})
+	_ = total
 }
 
 // TestSetsSequentialModel: the whole set interface (constructor with initial elements, Put/PutAll,
@@ -681,4 +720,34 @@ func TestSetsSequentialModel(t *testing.T) {
 		})
 		kit.Rec.Case(which+fmt.Sprint(" init ", init, " ", hist), len(hist) >= 3, "sets-sequential/"+which)
 	})
+}
+
+// waitAll waits for the free-running goroutines of one case. Their operations take microseconds; if they have not
+// all returned after hangLimit, some operation is blocked for good (lost wake-up, copied lock): a history in which an
+// operation never completes has no sequential equivalent. The operations that did complete are reported.
+const hangLimit = 45 * time.Second
+
+var hung bool
+
+func waitAll(t *rapid.T, wg *sync.WaitGroup, rec *opRec) {
+	if hung {
+		t.Fatalf("C20: an earlier case of this process left blocked operations behind")
+	}
+	done := make(chan struct{})
+	go func() { wg.Wait(); close(done) }()
+	select {
+	case <-done:
+	case <-time.After(hangLimit):
+		hung = true
+		rec.mu.Lock()
+		n := len(rec.ops)
+		var ds []string
+		for _, o := range rec.ops {
+			ds = append(ds, fmt.Sprintf("c%d[%d..%d]%v->%v", o.ClientId, o.Call, o.Return, o.Input, o.Output))
+		}
+		d := strings.Join(ds, " ")
+		rec.mu.Unlock()
+		kit.DumpReplay("c20-blocked-operation", map[string]any{"completed_operations": d})
+		t.Fatalf("C20: concurrent operations on the utility did not all return within %v (%d completed: %s): an operation is blocked for good", hangLimit, n, d)
+	}
 }
